@@ -188,6 +188,15 @@ func genExactEA(r *prng.R, opcode int) (cpuCase, bool) {
 		mode = "(dp),Y"
 	case lo == 0x3 && hi%2 == 1:
 		mode = "(sr,S),Y"
+	case lo == 0xD && hi%2 == 0, lo == 0xE && hi%2 == 0, lo == 0xC && (hi == 0 || hi == 1 || hi == 2 || hi == 8 || hi == 9 || hi == 0xA || hi == 0xC || hi == 0xE):
+		mode = "abs" // DBR:abs, data (JMP/JSR excluded below by their opcodes)
+		if opcode == 0x4C || opcode == 0x6C || opcode == 0x7C || opcode == 0xDC || opcode == 0xFC || opcode == 0x20 {
+			return cpuCase{}, false
+		}
+	case lo == 0x2 && hi%2 == 1:
+		mode = "(dp)"
+	case lo == 0x1 && hi%2 == 0:
+		mode = "(dp,X)"
 	default:
 		return cpuCase{}, false
 	}
@@ -226,6 +235,22 @@ func genExactEA(r *prng.R, opcode int) (cpuCase, bool) {
 	}
 	put16 := func(a uint32, v uint16) { c.ovl[a] = byte(v); c.ovl[a&0xFF0000|uint32(uint16(a)+1)] = byte(v >> 8) }
 	switch mode {
+	case "abs":
+		base = target & 0xFFFFFF
+		g.RDBR = uint8(base >> 16)
+		c.ovl[pc(1)], c.ovl[pc(2)] = byte(base), byte(base>>8)
+	case "(dp)", "(dp,X)":
+		base = target & 0xFFFFFF
+		g.RD = 0x0200
+		g.RDBR = uint8(base >> 16)
+		c.ovl[pc(1)] = 0x10
+		if mode == "(dp,X)" {
+			g.X = 1
+			g.RX, g.RXl = 4, 4
+			put16(0x000214, uint16(base))
+		} else {
+			put16(0x000210, uint16(base))
+		}
 	case "abs,X", "abs,Y":
 		setIdx(mode == "abs,X")
 		g.RDBR = uint8(base >> 16)
@@ -497,6 +522,7 @@ func runCPU() {
 		c.steps = 2
 		// interruptNMI, interruptIRQ, and (rarely) the idle / zero / out-of-range latch values that must fall through
 		latch := []int{2, 3, 2, 3, 2, 3, 2, 3, 0, 1, 4, 0xFF}[k%12]
+		c.regs.Stopped = k%3 == 0 // an interrupt does not restart a processor halted by STP (only Reset does)
 		if k%5 == 0 {
 			// stack at the boundaries: the pushes of the entry sequence wrap
 			c.regs.SP = []uint16{0x0000, 0x0001, 0x0002, 0x0100, 0x01FF, 0xFFFF}[ri.N(6)]
@@ -573,6 +599,9 @@ func runCPU() {
 				}
 				if o.cyc < 1 || uint64(o.cyc) != uint64(o.cycReg) || o.all1 != o.all0+uint64(o.cyc) {
 					rep.Add(report.Finding{Property: "C12", Kind: "violation", Clause: fmt.Sprintf("%s: Step %d with a pending interrupt: reported %d cycles, Cycles=%d, AllCycles %d -> %d", vname, i+1, o.cyc, o.cycReg, o.all0, o.all1), Input: in})
+				}
+				if c.regs.Stopped && !o.stop {
+					rep.Add(report.Finding{Property: "C12", Kind: "violation", Clause: fmt.Sprintf("%s: Step %d with a pending interrupt cleared the stop condition without a reset", vname, i+1), Input: in})
 				}
 				if o.latch != 1 {
 					for _, p := range modelProps {
